@@ -431,4 +431,38 @@ def c12_f(ctx: Ctx):
     return out
 
 
-RULES = [c12_a, c12_b, c12_c, c12_d, c12_e, c12_f, c12_g]
+@rule("C12-h")
+def c12_h(ctx: Ctx):
+    """Project-level sync decides "clone or merge" by attempting the clone and handling DestinationExistsError - not by looking first: between a look (`job in
+    destination`, isdir) and the copy another process may initialise the same job, and the sync then aborts instead of merging."""
+    R = "C12-h"
+    q = "signac.sync:sync_projects.<locals>._clone_or_sync"
+    f = ctx.prog.funcs.get(q)
+    k = q + "|attempt-then-handle"
+    if f is None:
+        return [ctx.inc(R, None, None, "_clone_or_sync not found", construct=k)]
+    clones = [c for c in body_nodes(f) if isinstance(c, ast.Call) and isinstance(c.func, ast.Attribute) and c.func.attr == "clone"]
+    if not clones:
+        return [ctx.inc(R, f, f.node, "no .clone() call in _clone_or_sync", construct=k)]
+    ex = ExcFacts(ctx)
+    out = []
+    for c in clones:
+        pm = ctx.parents(f)
+        cur = pm.get(id(c))
+        handled = False
+        while cur is not None:
+            if isinstance(cur, ast.Try) and common.in_body_of(ctx, f, c, cur, ("body",)) and any(ex.catches(ex.handler_type_names(f, h), "signac.errors:DestinationExistsError") for h in cur.handlers):
+                handled = True
+            cur = pm.get(id(cur))
+        facts = common.facts_at(ctx, f, c, "n")
+        probes = [t for (t, _pol) in facts if " in " in t or "os.path.isdir(" in t or "os.path.exists(" in t or "_contains_job_id(" in t]
+        if not handled:
+            out.append(ctx.viol(R, f, c, "the clone is not inside a try that handles DestinationExistsError: a job that another process initialises in the destination while the sync runs "
+                                "makes the whole sync fail instead of being merged", construct=k))
+        elif probes:
+            out.append(ctx.viol(R, f, c, f"the clone is attempted only if `{probes[0][:50]}`: the answer can be out of date when the copy starts", construct=k))
+        else:
+            out.append(ctx.ok(R, f, c, "the clone is attempted unconditionally; an existing destination is handled by merging", construct=k))
+    return out
+
+RULES = [c12_a, c12_b, c12_c, c12_d, c12_e, c12_f, c12_g, c12_h]
